@@ -421,7 +421,9 @@ def run_e2e(ctx, n):
         r = env.rng("C19-e2e", i)
         try:
             api = resource_api(r)
-            req = api.request("transport=" + r.choice(["grpc", "rest", "grpc+rest"]))
+            # every third library comes from the ads template tree (its client template has its own copy of the helpers)
+            req = api.request("transport=grpc,python-gapic-templates=ads-templates,old-naming" if i % 3 == 2
+                              else "transport=" + r.choice(["grpc", "rest", "grpc+rest"]))
         except apigen.Invalid:
             ctx.features["e2e-invalid-candidate"] += 1
             continue
@@ -470,6 +472,30 @@ def run_e2e(ctx, n):
                     if base.startswith("common_"):
                         ctx.violation(f"missing common helper {base}_path", case)
                     continue
+                # oracle on the emitted helper itself: what its body computes (str.format / re.match) on in-domain values
+                rv = env.rng("C19-e2e-values", i * 1000 + len(checks))
+                for _ in range(3):
+                    vals = in_domain_values(rv, pat)
+                    if vals is None or len({k for k, _ in vals}) != len(vals):
+                        break
+                    kv = dict(vals)
+                    try:
+                        built = b["fmt"].format(**kv)
+                    except (KeyError, IndexError, ValueError) as e:
+                        ctx.violation(f"service {svc}: {base}_path({kv}) raises {type(e).__name__}: {e} (emitted format string {b['fmt']!r}, pattern {pat!r})", case)
+                        break
+                    try:
+                        mm = re.match(p["regex"], built)
+                    except re.error as e:
+                        ctx.violation(f"service {svc}: parse_{base}_path: emitted regex {p['regex']!r} does not compile: {e}", case)
+                        break
+                    got = mm.groupdict() if mm else {}
+                    if got != kv:
+                        ctx.violation(f"service {svc}: parse_{base}_path({base}_path({kv})) = {got} (built {built!r}, pattern {pat!r})", case)
+                        break
+                    if got and b["fmt"].format(**got) != built:
+                        ctx.violation(f"service {svc}: {base}_path(parse_{base}_path({built!r})) != {built!r}", case)
+                        break
                 P = coq.s(pat)
                 checks.append((f"e2e#{i} {svc}.{base}_path args", f"list_eqb String.eqb (args (tokenize {P})) {coq.slist(b['args'])}"))
                 checks.append((f"e2e#{i} {svc}.{base}_path kwargs", f"list_eqb String.eqb (args (tokenize {P})) {coq.slist(b['kw'])}"))
